@@ -506,7 +506,9 @@ def hist_fn(case):
 NAMES = ['CO', 'Co', 'CS', 'Cs', 'NO', 'No', 'HF', 'Hf', 'SiO', 'SIO', 'C2H2', 'NH3', 'TiO', 'Na', 'PH3', 'HCl', 'CaH',
          'MgH', 'AlO', 'Ne', 'Ar', 'LiH',
          # bracket groups with a multiplier, before and after other elements, sharing elements with what precedes them
-         'C(CH3)4', 'CH3(CH2)2CH3', 'SO2(OH)2', '(CH3)2CO', 'Mg(OH)2', 'Al2(SO4)3']
+         'C(CH3)4', 'CH3(CH2)2CH3', 'SO2(OH)2', '(CH3)2CO', 'Mg(OH)2', 'Al2(SO4)3',
+         # atom counts and group multipliers of ten and more
+         'C4H10', 'C10H8', 'C6H12O6', 'C(CH3)12']
 
 
 def names_case(case):
